@@ -16,7 +16,8 @@ out = {"at": datetime.datetime.now().isoformat(timespec="seconds"), "rounds": []
 for name, logf, pat in (("first pass (tree at the time: 5330792c..6c759f24, see DESIGN 11.8)", "/tmp/thorough_all.log", "/tmp/thorough_%s.log"),
                         ("second pass on the repaired tree, checks whose oracle or workload changed", "/tmp/thorough2.log", "/tmp/thorough2_%s.log"),
                         ("third pass (C09 after the driver fix: found the hook-H2 grain-size artefact)", "/tmp/thorough3.log", "/tmp/thorough3_%s.log"),
-                        ("fourth pass (C09 after the hook lower bound)", "/tmp/thorough4.log", "/tmp/thorough4_%s.log")):
+                        ("fourth pass (C09 after the hook lower bound)", "/tmp/thorough4.log", "/tmp/thorough4_%s.log"),
+                        ("fifth pass on the final tree (checks whose generators changed after their last thorough run)", "/tmp/thorough5.log", "/tmp/thorough5_%s.log")):
     if not os.path.exists(logf):
         continue
     runs = []
